@@ -921,6 +921,12 @@ struct Planter<'a> {
     seen_fns: Vec<(String, usize)>, // key, source line
     file: String,
     lost: Vec<String>,
+    fuzzy: Vec<String>,
+    renamed: Vec<String>,
+    shapes: Vec<(String, Vec<String>, usize, usize)>, // key, called names, closures in the body, closures with a contract
+    locals: Vec<(String, Vec<(String, String)>)>,
+    locals_baseline: &'a BTreeMap<String, Vec<(String, String)>>,
+    skip_hints: &'a BTreeMap<String, BTreeSet<String>>,
     log: Vec<String>,
 }
 
@@ -972,6 +978,12 @@ impl<'a> Planter<'a> {
             attrs.push(parse_quote!(#[doc = "@vp-body-dropped: contract assumed"]));
             self.log.push(format!("DROP body of {} (assumed contract)", key));
         }
+        if has_body {
+            let mut sc = ShapeCollector { calls: BTreeSet::new(), closures: 0 };
+            sc.visit_block_mut(block);
+            let nh = self.c.fns.get(key).map(|f| f.closures.len()).unwrap_or(0);
+            self.shapes.push((key.to_string(), sc.calls.iter().cloned().collect(), sc.closures, nh));
+        }
         let fc = match self.c.fns.get_mut(key) {
             Some(f) => f.clone(),
             None => return,
@@ -990,6 +1002,42 @@ impl<'a> Planter<'a> {
         if skip_hints {
             self.log.push(format!("NOHINT {}: proof hints not injected (fallback after a tool error inside this function)", key));
         }
+        let skipped: BTreeSet<String> = self.skip_hints.get(key).cloned().or_else(|| self.skip_hints.get(&qkey).cloned()).unwrap_or_default();
+        let mut fc = fc;
+        // locals of this body; renamed locals are followed (the hints of contracts/ name locals of the unchanged tree)
+        if has_body {
+            let mut lc = LetCollector { out: vec![] };
+            lc.visit_block_mut(block);
+            self.locals.push((key.to_string(), lc.out.clone()));
+            if let Some(old) = self.locals_baseline.get(key).or_else(|| self.locals_baseline.get(&qkey)) {
+                let rm = rename_map(old, &lc.out);
+                for (o, n) in &rm {
+                    self.renamed.push(format!("RENAMED-LOCAL {} {} -> {}", key, o, n));
+                    for a in fc.anchors.iter_mut() {
+                        a.text = replace_word(&a.text, o, n);
+                        a.prefix = replace_word(&a.prefix, o, n);
+                    }
+                    for l in fc.loops.values_mut() {
+                        l.text = replace_word(&l.text, o, n);
+                    }
+                    for c in fc.closures.values_mut() {
+                        *c = replace_word(c, o, n);
+                    }
+                }
+            }
+        }
+        for o in fc.loops.keys().cloned().collect::<Vec<_>>() {
+            if skipped.contains(&format!("loop#{}", o)) {
+                fc.loops.remove(&o);
+                self.log.push(format!("SKIP-HINT {} loop#{} (requested by the driver)", key, o));
+            }
+        }
+        for o in fc.closures.keys().cloned().collect::<Vec<_>>() {
+            if skipped.contains(&format!("closure#{}", o)) {
+                fc.closures.remove(&o);
+                self.log.push(format!("SKIP-HINT {} closure#{} (requested by the driver)", key, o));
+            }
+        }
         if !(dropb && has_body) && has_body && !skip_hints {
             // loops
             let mut lp = LoopPlanter { ord: 0, fc: &fc, markers: vec![], used: BTreeSet::new() };
@@ -1003,15 +1051,19 @@ impl<'a> Planter<'a> {
             // second pass to assign global ids: LoopPlanter stored placeholder macros `vp_loop!(L<ord>)`
             for (ord, l) in &fc.loops {
                 if !used.contains(ord) {
-                    self.lost.push(format!("LOST-LOOP {} loop {}", key, ord));
+                    self.lost.push(format!("LOST-LOOP {} loop#{}", key, ord));
                 } else {
-                    let gid = self.marker(l.text.clone());
+                    let gid = self.marker(format!("/*@vp-hint {} loop#{}*/\n{}\n/*@vp-hint-end*/", key, ord, l.text.trim_end()));
                     replace_macro_arg(block, &format!("VPL{}", ord), gid);
                 }
             }
             // anchors
             for (i, a) in fc.anchors.iter().enumerate() {
-                let gid = self.marker(a.text.clone());
+                if skipped.contains(&format!("anchor#{}", i)) {
+                    self.log.push(format!("SKIP-HINT {} anchor#{} (requested by the driver)", key, i));
+                    continue;
+                }
+                let gid = self.marker(format!("/*@vp-hint {} anchor#{}*/\n{}\n/*@vp-hint-end*/", key, i, a.text.trim_end()));
                 let ok = match a.pos.as_str() {
                     "start" => {
                         let m: Stmt = parse_quote!(vp_proof!(#gid););
@@ -1043,11 +1095,26 @@ impl<'a> Planter<'a> {
                     _ => {
                         let mut ap = StmtAnchor { prefix: a.prefix.clone(), nth: a.nth, seen: 0, before: a.pos == "before", gid, done: false };
                         ap.visit_block_mut(block);
-                        ap.done
+                        if !ap.done {
+                            // fuzzy fallback: the statement was edited; place the hint at the statement that is clearly the
+                            // closest to the anchor text.  The checker treats verdicts of such a function differentially.
+                            if let Some((target, score)) = fuzzy_target(block, &a.prefix) {
+                                let mut ap2 = StmtAnchor { prefix: target.clone(), nth: 0, seen: 0, before: a.pos == "before", gid, done: false };
+                                ap2.visit_block_mut(block);
+                                if ap2.done {
+                                    self.fuzzy.push(format!("FUZZY-ANCHOR {} anchor#{} {} {:?} -> {:?} (score {:.2})", key, i, a.pos, a.prefix, target.chars().take(60).collect::<String>(), score));
+                                }
+                                ap2.done
+                            } else {
+                                false
+                            }
+                        } else {
+                            true
+                        }
                     }
                 };
                 if !ok {
-                    self.lost.push(format!("LOST-ANCHOR {} anchor#{} {} {:?}", key, i, a.pos, a.prefix));
+                    self.lost.push(format!("LOST-ANCHOR {} anchor#{} {} #{} {:?}", key, i, a.pos, a.nth, a.prefix));
                 }
             }
             // closures
@@ -1080,7 +1147,7 @@ impl<'a> Planter<'a> {
                 let found = cp.found.clone();
                 for (ord, _t) in &fc.closures {
                     if !found.iter().any(|(o, _)| o == ord) {
-                        self.lost.push(format!("LOST-CLOSURE {} closure {}", key, ord));
+                        self.lost.push(format!("LOST-CLOSURE {} closure#{}", key, ord));
                     }
                 }
                 for (ord, t) in found {
@@ -1221,6 +1288,189 @@ impl VisitMut for LoopAnchor {
     fn visit_expr_loop_mut(&mut self, l: &mut ExprLoop) {
         self.at(&mut l.body);
         visit_mut::visit_expr_loop_mut(self, l);
+    }
+}
+
+/// what a body calls (method names, last path segment of called paths, macro names) and how many closures it holds
+struct ShapeCollector {
+    calls: BTreeSet<String>,
+    closures: usize,
+}
+impl VisitMut for ShapeCollector {
+    fn visit_expr_method_call_mut(&mut self, m: &mut ExprMethodCall) {
+        self.calls.insert(m.method.to_string());
+        visit_mut::visit_expr_method_call_mut(self, m);
+    }
+    fn visit_expr_call_mut(&mut self, c: &mut ExprCall) {
+        if let Expr::Path(p) = &*c.func {
+            if let Some(s) = p.path.segments.last() {
+                self.calls.insert(s.ident.to_string());
+            }
+        }
+        visit_mut::visit_expr_call_mut(self, c);
+    }
+    fn visit_macro_mut(&mut self, m: &mut Macro) {
+        if let Some(s) = m.path.segments.last() {
+            let n = s.ident.to_string();
+            if !n.starts_with("vp_") {
+                self.calls.insert(format!("{}!", n));
+            }
+        }
+        visit_mut::visit_macro_mut(self, m);
+    }
+    fn visit_expr_closure_mut(&mut self, c: &mut ExprClosure) {
+        self.closures += 1;
+        visit_mut::visit_expr_closure_mut(self, c);
+    }
+}
+
+/// `let` bindings of a body in source order: (name, statement text with the bound name replaced by `$`)
+struct LetCollector {
+    out: Vec<(String, String)>,
+}
+impl VisitMut for LetCollector {
+    fn visit_local_mut(&mut self, l: &mut Local) {
+        let name = match &l.pat {
+            Pat::Ident(pi) => Some(pi.ident.to_string()),
+            Pat::Type(pt) => match &*pt.pat {
+                Pat::Ident(pi) => Some(pi.ident.to_string()),
+                _ => None,
+            },
+            _ => None,
+        };
+        if let Some(n) = name {
+            // the declaration without its type annotation: `let [mut] $ = <init>`
+            let init = l.init.as_ref().map(|i| i.expr.to_token_stream().to_string()).unwrap_or_default();
+            let is_mut = matches!(&l.pat, Pat::Ident(pi) if pi.mutability.is_some())
+                || matches!(&l.pat, Pat::Type(pt) if matches!(&*pt.pat, Pat::Ident(pi) if pi.mutability.is_some()));
+            let txt = format!("let {} $ = {}", if is_mut { "mut" } else { "" }, replace_word(&init, &n, "$"));
+            self.out.push((n.clone(), norm(&txt)));
+        }
+        visit_mut::visit_local_mut(self, l);
+    }
+    fn visit_expr_for_loop_mut(&mut self, f: &mut ExprForLoop) {
+        // pattern variables of a `for` loop: the i-th variable of `for (..) in <expr>`
+        let mut ids: Vec<String> = vec![];
+        fn walk(p: &Pat, ids: &mut Vec<String>) {
+            match p {
+                Pat::Ident(pi) => ids.push(pi.ident.to_string()),
+                Pat::Tuple(t) => t.elems.iter().for_each(|e| walk(e, ids)),
+                Pat::Reference(r) => walk(&r.pat, ids),
+                _ => {}
+            }
+        }
+        walk(&f.pat, &mut ids);
+        let e = norm(&f.expr.to_token_stream().to_string());
+        for (i, n) in ids.iter().enumerate() {
+            self.out.push((n.clone(), format!("for#{}in{}", i, e)));
+        }
+        visit_mut::visit_expr_for_loop_mut(self, f);
+    }
+}
+/// replace whole-word occurrences of `from` (identifier boundaries) by `to`
+fn replace_word(s: &str, from: &str, to: &str) -> String {
+    let b = s.as_bytes();
+    let f = from.as_bytes();
+    let isid = |c: u8| c.is_ascii_alphanumeric() || c == b'_';
+    let mut out = String::new();
+    let mut i = 0;
+    while i < b.len() {
+        if i + f.len() <= b.len() && &b[i..i + f.len()] == f && (i == 0 || !isid(b[i - 1])) && (i + f.len() == b.len() || !isid(b[i + f.len()])) {
+            out.push_str(to);
+            i += f.len();
+        } else {
+            out.push(b[i] as char);
+            i += 1;
+        }
+    }
+    out
+}
+/// locals of the unchanged tree that are gone, paired with the new local whose declaration is clearly the same one
+fn rename_map(old: &[(String, String)], cur: &[(String, String)]) -> Vec<(String, String)> {
+    let cur_names: BTreeSet<&String> = cur.iter().map(|x| &x.0).collect();
+    let old_names: BTreeSet<&String> = old.iter().map(|x| &x.0).collect();
+    let mut out: Vec<(String, String)> = vec![];
+    for (on, ot) in old {
+        if cur_names.contains(on) || out.iter().any(|(o, _)| o == on) {
+            continue;
+        }
+        let mut scored: Vec<(f64, &String)> = vec![];
+        for (cn, ct) in cur {
+            if old_names.contains(cn) || out.iter().any(|(_, n)| n == cn) {
+                continue;
+            }
+            let d = lev(ot.as_bytes(), ct.as_bytes());
+            let sc = 1.0 - (d as f64) / (ot.len().max(ct.len()).max(1) as f64);
+            scored.push((sc, cn));
+        }
+        scored.sort_by(|a, b| b.0.partial_cmp(&a.0).unwrap());
+        let ok = match scored.as_slice() {
+            [] => None,
+            [(s0, n0)] => if *s0 >= 0.75 { Some((*n0).clone()) } else { None },
+            [(s0, n0), (s1, n1), ..] => if *s0 >= 0.75 && (*s0 - *s1 >= 0.1 || n0 == n1 || (*s0 >= 0.9999 && *s1 < 0.9999)) { Some((*n0).clone()) } else { None },
+        };
+        if let Some(n) = ok {
+            out.push((on.clone(), n));
+        }
+    }
+    out
+}
+
+/// all statements of a body (nested blocks included), normalised, for the fuzzy fallback of a lost `@anchor`
+struct StmtCollector {
+    out: Vec<String>,
+}
+impl VisitMut for StmtCollector {
+    fn visit_block_mut(&mut self, b: &mut Block) {
+        for st in b.stmts.iter_mut() {
+            let is_marker = matches!(&*st, Stmt::Macro(sm) if sm.mac.path.segments.last().map(|s| s.ident.to_string().starts_with("vp_")).unwrap_or(false));
+            if !is_marker {
+                self.out.push(norm(&st.to_token_stream().to_string()));
+            }
+            visit_mut::visit_stmt_mut(self, st);
+        }
+    }
+}
+fn lev(a: &[u8], b: &[u8]) -> usize {
+    let mut prev: Vec<usize> = (0..=b.len()).collect();
+    for i in 1..=a.len() {
+        let mut cur = vec![i; b.len() + 1];
+        for j in 1..=b.len() {
+            let c = if a[i - 1] == b[j - 1] { 0 } else { 1 };
+            cur[j] = (prev[j] + 1).min(cur[j - 1] + 1).min(prev[j - 1] + c);
+        }
+        prev = cur;
+    }
+    prev[b.len()]
+}
+/// the statement whose head is closest to `prefix` (normalised edit distance), if it is close enough and clearly the closest
+fn fuzzy_target(block: &mut Block, prefix: &str) -> Option<(String, f64)> {
+    let mut c = StmtCollector { out: vec![] };
+    c.visit_block_mut(block);
+    let p = prefix.as_bytes();
+    if p.len() < 8 {
+        return None;
+    }
+    let mut scored: Vec<(f64, String)> = vec![];
+    for t in c.out {
+        let tb = t.as_bytes();
+        let mut best = 0.0f64;
+        for extra in [0usize, 2, 4, 8] {
+            let n = (p.len() + extra).min(tb.len());
+            let d = lev(p, &tb[..n]);
+            let sc = 1.0 - (d as f64) / (p.len() as f64);
+            if sc > best {
+                best = sc;
+            }
+        }
+        scored.push((best, t));
+    }
+    scored.sort_by(|a, b| b.0.partial_cmp(&a.0).unwrap());
+    scored.dedup_by(|a, b| a.1 == b.1);
+    match scored.as_slice() {
+        [] => None,
+        [(s0, t0)] => if *s0 >= 0.7 { Some((t0.clone(), *s0)) } else { None },
+        [(s0, t0), (s1, _), ..] => if *s0 >= 0.7 && *s0 - *s1 >= 0.08 { Some((t0.clone(), *s0)) } else { None },
     }
 }
 
@@ -1522,6 +1772,30 @@ fn main() {
     let mut lits: BTreeMap<String, Vec<u8>> = BTreeMap::new();
     let mut log_all: Vec<Value> = vec![];
     let mut lost: Vec<String> = vec![];
+    let mut fuzzy: Vec<String> = vec![];
+    let mut renamed: Vec<String> = vec![];
+    let mut locals_all: BTreeMap<String, Vec<(String, String)>> = BTreeMap::new();
+    let mut shapes_all: BTreeMap<String, Value> = BTreeMap::new();
+    // locals of the unchanged tree (contracts/locals_baseline.json, written by tools/gen_hint_baseline.py)
+    let mut locals_baseline: BTreeMap<String, Vec<(String, String)>> = BTreeMap::new();
+    if let Ok(t) = fs::read_to_string(format!("{}/locals_baseline.json", &args[3])) {
+        if let Ok(v) = serde_json::from_str::<Value>(&t) {
+            if let Some(o) = v.as_object() {
+                for (k, arr) in o {
+                    if let Some(a) = arr.as_array() {
+                        locals_baseline.insert(k.clone(), a.iter().filter_map(|p| Some((p.get(0)?.as_str()?.to_string(), p.get(1)?.as_str()?.to_string()))).collect());
+                    }
+                }
+            }
+        }
+    }
+    // skip_hints: {"<fn key>": ["anchor#2", "loop#0"]} -- hints the driver wants left out (per-hint differential baseline)
+    let mut skip_hints: BTreeMap<String, BTreeSet<String>> = BTreeMap::new();
+    if let Some(o) = cfg.get("skip_hints").and_then(|v| v.as_object()) {
+        for (k, v) in o {
+            skip_hints.insert(norm(k), v.as_array().map(|a| a.iter().map(|x| x.as_str().unwrap().to_string()).collect()).unwrap_or_default());
+        }
+    }
     let mut fn_index: Vec<Value> = vec![];
     let mut dropped_log: Vec<String> = vec![];
 
@@ -1695,12 +1969,26 @@ fn main() {
             seen_fns: vec![],
             file: path.to_string(),
             lost: vec![],
+            fuzzy: vec![],
+            renamed: vec![],
+            shapes: vec![],
+            locals: vec![],
+            locals_baseline: &locals_baseline,
+            skip_hints: &skip_hints,
             log: vec![],
         };
         pl.visit_file_mut(&mut file);
         let _ = &pl.scope;
         log.extend(pl.log.clone());
         lost.extend(pl.lost.clone());
+        fuzzy.extend(pl.fuzzy.clone());
+        renamed.extend(pl.renamed.clone());
+        for (k, v) in &pl.locals {
+            locals_all.insert(k.clone(), v.clone());
+        }
+        for (k, calls, ncl, nhint) in &pl.shapes {
+            shapes_all.insert(k.clone(), json!({"calls": calls, "closures": ncl, "closure_contracts": nhint}));
+        }
         for (k, l) in &pl.seen_fns {
             fn_index.push(json!({"key": k, "file": path, "line": l, "module": module}));
         }
@@ -1764,7 +2052,7 @@ fn main() {
             lost.push(format!("LOST-ITEMS {}", k));
         }
     }
-    let out = json!({"rules": log_all, "lost": lost, "functions": fn_index, "dropped": dropped_log,
+    let out = json!({"rules": log_all, "lost": lost, "fuzzy": fuzzy, "renamed": renamed, "locals": locals_all, "shapes": shapes_all, "functions": fn_index, "dropped": dropped_log,
                      "literals": lits.iter().map(|(k, v)| (k.clone(), json!(String::from_utf8_lossy(v)))).collect::<BTreeMap<_, _>>()});
     fs::write(format!("{}/extract_log.json", out_dir), serde_json::to_string_pretty(&out).unwrap()).unwrap();
     // lost anchors do not stop the run: the driver treats failures inside the affected functions as UNDECIDED
